@@ -139,6 +139,10 @@ def run_impl(case):
             res['flags'] = vfw.flags.compute()
             res['weights'] = vfw.weights.compute()
             res['chunks'] = {'vis': [list(c) for c in vfw.vis.chunks], 'flags': [list(c) for c in vfw.flags.chunks]}
+            # two loads alive at the same time and evaluated in ONE dask computation: the same arrays under another
+            # preselection, and another capture block with nothing missing
+            if case['seed'] % 5 < 2:
+                res['pair'] = load_pair(case, store, chunk_info, stored, vfw, kw)
             if case.get('via_source') is not None:
                 res['src'] = load_via_source(case, store, orig_chunk_info, prefix)
             if case.get('dict_absent') and len(set(case['dumps'].values())) == 1:
@@ -150,6 +154,47 @@ def run_impl(case):
     finally:
         shutil.rmtree(tmp, ignore_errors=True)
     return res
+
+
+def load_pair(case, store, chunk_info, stored, vfw, kw):
+    """(a) the same stored arrays loaded a second time with a different (or no) preselection, (b) a second capture
+    block in the same store with nothing missing; each pair computed jointly and compared with separate computes"""
+    from katdal.vis_flags_weights import ChunkStoreVisFlagsWeights
+    out = dict(err=None, what=None)
+    try:
+        T, F = case['T'], case['F']
+        other_kw = {}
+        if case['pre'] is None or T < 2:
+            if T >= 2:
+                other_kw['preselect_index'] = (slice(T // 2, T), slice(0, F))
+        else:
+            other_kw = {}
+        vfw2 = ChunkStoreVisFlagsWeights(store, chunk_info, **other_kw)
+        prefix2 = 'cb2-sdp-l0'
+        info2 = {}
+        push = []
+        for a in ARRAYS:
+            arr = stored[a]
+            darr = da.from_array(arr + (1 if a != 'flags' else 0), chunks=tuple(tuple(c) for c in case['chunks'][a]))
+            name = store.join(prefix2, a)
+            store.create_array(name)
+            info2[a] = {'prefix': prefix2, 'chunks': darr.chunks, 'dtype': np.lib.format.dtype_to_descr(darr.dtype),
+                        'shape': darr.shape}
+            push.append(store.put_dask_array(name, darr))
+        da.compute(*push)
+        from katdal.datasources import _align_chunk_info
+        vfw3 = ChunkStoreVisFlagsWeights(store, _align_chunk_info(info2), **kw)
+        for label, other in (('the same arrays under another preselection', vfw2), ('another capture block', vfw3)):
+            alone = [x.compute() for x in (vfw.vis, vfw.flags, vfw.weights, other.vis, other.flags, other.weights)]
+            joint = da.compute(vfw.vis, vfw.flags, vfw.weights, other.vis, other.flags, other.weights)
+            for nm, a1, j1 in zip(('vis', 'flags', 'weights', 'other vis', 'other flags', 'other weights'), alone, joint):
+                if a1.shape != j1.shape or not np.array_equal(a1, j1):
+                    out['what'] = (f'two loads evaluated in one dask computation ({label}): {nm} differs from the '
+                                   f'same array computed on its own')
+                    return out
+    except Exception as e:   # noqa: BLE001
+        out['err'] = f'{type(e).__name__}: {str(e)[:120]}'
+    return out
 
 
 def load_via_source(case, store, chunk_info, prefix):
@@ -339,6 +384,12 @@ def evaluate(ctx, cases):
                 elif not np.array_equal(impl['flags'], flags):
                     w = np.argwhere(impl['flags'] != flags)[0].tolist()
                     v = f'flags differ at {w}: got {impl["flags"][tuple(w)]} expected {flags[tuple(w)]}'
+        if v is None and impl.get('pair') is not None:
+            ctx.tag('two-loads-one-graph')
+            if impl['pair']['err']:
+                v = f"a second load next to the first raised {impl['pair']['err']}"
+            elif impl['pair']['what']:
+                v = impl['pair']['what']
         if v is None and impl.get('src') is not None:
             sr = impl['src']
             ctx.tag('via-source-upgrade-flags-' + str(bool(c['via_source'])))
